@@ -274,6 +274,25 @@ impl World {
         }
     }
 
+    /// A restart of the primary loses its outgoing queue: what was not flushed never
+    /// reaches the followers, and diffs recorded afterwards would be applied to another
+    /// base state than the one they were recorded against. Everyone reloads the document.
+    fn reload_followers(&mut self) {
+        if self.followers.is_empty() {
+            return;
+        }
+        let bytes = self.primary.um.to_bytes();
+        for (i, f) in self.followers.iter_mut().enumerate() {
+            let inc = self.next_incarnation + i as u32;
+            if let Ok(mut n) = Node::from_bytes(&bytes, f.node.lang, 100 + inc) {
+                n.um.evaluate();
+                f.node = n;
+                f.inbox.clear();
+            }
+        }
+        self.next_incarnation += self.followers.len() as u32;
+    }
+
     fn bare_op(&mut self, op: &crate::ev::BareOp) -> Result<(), String> {
         use crate::ev::BareOp::*;
         let lang = self.primary.lang;
@@ -431,6 +450,7 @@ impl World {
                                 }
                                 self.primary = n;
                                 restarted = true;
+                                self.reload_followers();
                                 if *dirty {
                                     self.stats.dirty_restarts += 1;
                                 } else {
@@ -458,6 +478,7 @@ impl World {
                         }
                         self.primary = n;
                         restarted = true;
+                        self.reload_followers();
                         self.stats.xlsx_restarts += 1;
                         Ok(())
                     }
